@@ -37,8 +37,19 @@ class Walker:
         self.fr = E.frame(fn, SELF, [], None)
         self.fr["params"] = {a: ("p", a) for a in fn.params}
 
-    def walk(self, stmts, paths, loops):
-        E, fr = self.E, self.fr
+    def _callee(self, s, fr):
+        """`self.helper(...)` as a statement: the helper of the root object (its loops must stay visible, so it is walked, not summarised)"""
+        if isinstance(s, ast.Expr) and isinstance(s.value, ast.Call) and isinstance(s.value.func, ast.Attribute) and isinstance(s.value.func.value, ast.Name) \
+                and s.value.func.value.id == "self" and fr["self"] == SELF and fr["root_cls"]:
+            m = self.E.M.find_method(fr["root_cls"], s.value.func.attr)
+            if m is not None and m.kind == "method" and m.name not in self.E.no_inline and fr["depth"] < 4 and not isinstance(m.node, ast.AsyncFunctionDef) \
+                    and any(isinstance(x, (ast.For, ast.While)) for x in ast.walk(m.node)) or (m is not None and m.kind == "method" and m.name not in self.E.no_inline and fr["depth"] < 4):
+                return m
+        return None
+
+    def walk(self, stmts, paths, loops, fr=None):
+        E = self.E
+        fr = fr or self.fr
         for s in stmts:
             out = []
             for p in paths:
@@ -54,20 +65,28 @@ class Walker:
                         starts = [q]
                     else:
                         it, var = None, None
-                        starts, _ = E.branch(E.ev(s.test, q, fr), q, s.lineno)
+                        starts, _ = E.cond(s.test, q, fr)
                     for st in starts:
                         st.effects = list(st.effects) + [("loop-enter", s.lineno)]
                     rec = LoopRec(s, it, var, [], p.clone())
-                    rec.body = self.walk(s.body, starts, rec.children)
+                    rec.body = self.walk(s.body, starts, rec.children, fr)
                     loops.append(rec)
                     post = E.stmt(s, p, fr)  # havoc semantics of the engine for the code after the loop
                     for x in post:
                         x.effects.append(("loop-ref", id(rec), s.lineno))
                     out.extend(post)
                 elif isinstance(s, ast.If):
-                    t, f = E.branch(E.ev(s.test, p, fr), p, s.lineno)
-                    out.extend(self.walk(s.body, t, loops))
-                    out.extend(self.walk(s.orelse, f, loops))
+                    t, f = E.cond(s.test, p, fr)
+                    out.extend(self.walk(s.body, t, loops, fr))
+                    out.extend(self.walk(s.orelse, f, loops, fr))
+                elif self._callee(s, fr) is not None:
+                    m = self._callee(s, fr)
+                    args = [E.ev(a, p, fr) for a in s.value.args]
+                    nfr = E.frame(m, SELF, args, fr)
+                    for q in self.walk(m.node.body, [p], loops, nfr):
+                        if q.status == "return":
+                            q.status, q.ret = "run", None
+                        out.append(q)
                 else:
                     out.extend(E.stmt(s, p, fr))
             paths = out
@@ -157,9 +176,33 @@ def check(src, rep):
     # ---------------------------------------------------------------- R3 / R4: data_received
     dr = B.methods["data_received"]
     data = ("p", dr.params[0])
-    stores = {n.attr for n in ast.walk(dr.node) if isinstance(n, ast.Attribute) and isinstance(n.ctx, ast.Store) and isinstance(n.value, ast.Name) and n.value.id == "self"}
-    rep.require(len(stores) == 1, f"data_received assigns {sorted(stores)}; cannot bind the selected-reader field")
-    SEL = stores.pop()
+    # the selected-reader field: the only field of the base protocol (re)bound outside the constructor
+    reach, work = set(), ["data_received"]
+    while work:
+        nm = work.pop()
+        if nm in reach or nm not in B.methods:
+            continue
+        reach.add(nm)
+        for n in ast.walk(B.methods[nm].node):
+            if isinstance(n, ast.Call) and isinstance(n.func, ast.Attribute) and isinstance(n.func.value, ast.Name) and n.func.value.id == "self":
+                work.append(n.func.attr)
+    stores = {n.attr for name in reach for n in ast.walk(B.methods[name].node)
+              if isinstance(n, ast.Attribute) and isinstance(n.ctx, ast.Store) and isinstance(n.value, ast.Name) and n.value.id == "self"}
+    first_init = {}
+    if B.methods.get("__init__"):
+        for n in ast.walk(B.methods["__init__"].node):
+            if isinstance(n, (ast.Assign, ast.AnnAssign)) and n.value is not None:
+                for t in (n.targets if isinstance(n, ast.Assign) else [n.target]):
+                    if isinstance(t, ast.Attribute) and isinstance(t.value, ast.Name) and t.value.id == "self" and (t.attr not in first_init or n.lineno < first_init[t.attr][0]):
+                        first_init[t.attr] = (n.lineno, n.value)
+    none_init = {a for a in stores if a in first_init and isinstance(first_init[a][1], ast.Constant) and first_init[a][1].value is None}
+    rep.require(len(none_init) == 1, f"data_received (with its helpers {sorted(reach)}) rebinds {sorted(stores)}; cannot bind the selected-reader field (the one that starts as None)")
+    SEL = none_init.pop()
+    init_fn = B.methods.get("__init__")
+    init_writes = [n for n in ast.walk(init_fn.node) if isinstance(n, ast.Attribute) and isinstance(n.ctx, ast.Store) and isinstance(n.value, ast.Name) and n.value.id == "self" and n.attr == SEL] if init_fn else []
+    if len(init_writes) != 1:
+        rep.violation("R3", f"{MOD}.SmartMeterBaseProtocol.__init__", "selection-in-constructor", "a reader is selected in the constructor, before it has produced a valid message: its messages are forwarded "
+                      "without the selection pass (invalid messages before the first valid one reach the queue)", file, init_writes[-1].lineno if init_writes else B.node.lineno)
     cand = [a for a, v in B.field_inits.items() if isinstance(v, ast.Call) and isinstance(v.func, ast.Name) and v.func.id == "list"]
     rep.require(len(cand) == 1, "cannot bind the candidate list field")
     CAND = cand[0]
@@ -312,7 +355,7 @@ def check(src, rep):
         for n in ast.walk(src.tree(m)):
             if isinstance(n, ast.Call) and isinstance(n.func, ast.Attribute) and n.func.attr == "message_received":
                 callers.append((m, n.lineno))
-    inside = [n.lineno for n in ast.walk(dr.node) if isinstance(n, ast.Call) and isinstance(n.func, ast.Attribute) and n.func.attr == "message_received"]
+    inside = [n.lineno for name in reach for n in ast.walk(B.methods[name].node) if isinstance(n, ast.Call) and isinstance(n.func, ast.Attribute) and n.func.attr == "message_received"]
     outside = [c for c in callers if not (c[0] == MOD and c[1] in inside)]
     puts = []
     for m in src.text:
@@ -345,6 +388,8 @@ def check(src, rep):
             rep.violation("R5", f"{MOD}.SmartMeterBaseProtocol.data_received", "reader-truthiness", "the reader-presence test uses truthiness but a reader class defines " + ", ".join(offenders), file, dr.node.lineno)
         else:
             rep.ok("R5", "reader presence test", "truthiness of a reader object is sound: no reader class defines __bool__ or __len__")
+    from sa.cross import include
+    include(rep, src, "C14", {"R1"}, "R6", "every candidate reader can be fed every chunk: read() does not raise on bytes of the other protocol")
     rep.floor("loops in data_received", len(all_loops), 3)
 
 
